@@ -310,6 +310,9 @@ func newEventFromUntrustedJSONV1(eventJSON []byte, roomVersion IRoomVersion) (PD
 	if err := roomVersion.CheckCanonicalJSON(eventJSON); err != nil {
 		return nil, BadJSONError{err}
 	}
+	if err := checkNoDuplicateKeys(eventJSON); err != nil {
+		return nil, BadJSONError{err}
+	}
 
 	res := &eventV1{}
 	res.roomVersion = roomVersion.Version()
